@@ -176,6 +176,7 @@ func (u *Unit) discharge(outDir string, timeoutMs int, thorough bool) {
 		panic(err)
 	}
 	out, dt, err := runSolver(solvers[0], file, timeoutMs)
+	u.PrimaryS = dt
 	results := parseIncremental(out, len(u.Script.obls))
 	per := dt / float64(len(u.Script.obls))
 	for i, o := range u.Script.obls {
